@@ -191,6 +191,13 @@ func VictimMain(args []string) {
 				}
 				run = func() error { return srv.RemoveDiffDisk(ops[1].Source) }
 			}
+		case "Replace":
+			i := atoi(f[1])
+			target, source := snaps[i-1], snaps[i]
+			if _, err := srv.PrepareRemoveDisk(source); err != nil {
+				setupFail("prepare", err)
+			}
+			run = func() error { return srv.ReplaceDisk(target, source) }
 		case "Revert":
 			name := f[1] // disk name
 			run = func() error { return srv.Revert(name, ea.Created) }
